@@ -208,6 +208,8 @@ def check_C06(ctx, rep):
         expect_equiv(rep, "R12d", "signum", "sign:signum", t, ref, body, "valid: +-1 by the sign bit of hi; invalid: NaN", leaf_eq=leq)
     from .rules_c10 import check_delegation_subset
     check_delegation_subset(rep, f, {"min", "max", "abs", "signum", "copysign", "is_sign_positive", "is_sign_negative", "is_positive", "is_negative"})
+    from .rules_funcs import check_defaults_subset
+    check_defaults_subset(rep, f, {"min", "max", "abs", "signum", "is_sign_positive", "is_sign_negative"}, rule="R16s")
     rep.floor("R12", len([o for o in rep.obl if o["rule"] == "R12"]), 8, "NaN screen instances")
     rep.floor("R12b-d", len([o for o in rep.obl if o["rule"] in ("R12b", "R12c", "R12d")]), 13, "comparison / sign decision tables")
 
